@@ -73,6 +73,8 @@ KERNELS = {
     "ordered_inner_map_result_size": {"owner": "C19"},
     "ordered_inner_map_left_unique": {"owner": "C19", "mutated": [2, 3]},      # returns None
     "ordered_inner_map": {"owner": "C19", "mutated": [2, 3]},                  # returns None
+    # KT4B
+    "ordered_generate_journalling_indices": {"owner": "C17"},                  # (old_inds, new_inds); safe on every input
 }
 C08_NOSRC = ("apply_spans_count", "apply_spans_index_of_first", "apply_spans_index_of_last")
 C08_REDUCE = ("apply_spans_count", "apply_spans_first", "apply_spans_last", "apply_spans_max", "apply_spans_min",
@@ -774,10 +776,39 @@ def random_c17_merge_indexed(rng):
                  unsafe=not merge_indexed_safe(om, nm, tk, oi, ni, capI), fuel=len(oi) + no + 4, _from="random")
 
 
+def random_c17_indices(rng):
+    """ordered_generate_journalling_indices: sorted old keys with runs / strictly sorted snapshot keys (the callers' shape),
+    and keys outside the precondition (unsorted, repeated snapshot keys, negative keys, empty sides) — the kernel subscripts
+    inside its arrays on EVERY input (C17Gen.gen_journal_indices_safe), so no call is `_unsafe`"""
+    r = rng.random()
+    lo = -3 if rng.random() < 0.2 else 0
+    old = sorted(rng.randrange(lo, 7) for _ in range(rng.randrange(0, 12)))
+    new = sorted(rng.sample(range(lo, 9), rng.randrange(0, 7)))
+    if r < 0.15 and len(old) > 1:
+        rng.shuffle(old)
+    elif r < 0.3 and new:
+        new.insert(rng.randrange(len(new) + 1), rng.choice(new))
+    elif r < 0.4:
+        new = [rng.randrange(lo, 7) for _ in range(rng.randrange(0, 7))]
+    return gcase("ordered_generate_journalling_indices", [arr(old), arr(new)], _from="random")
+
+
+def derive_c17(case):
+    if case.get("op") != "journal_kernels":
+        return None
+    old, new = case.get("old"), case.get("new")
+    if not all(isinstance(x, int) and not isinstance(x, bool) for x in list(old) + list(new)):
+        return None
+    return gcase("ordered_generate_journalling_indices", [arr(old), arr(new)], _from="C17")
+
+
 def random_c17(rng, n_cases):
     out = []
     for t in range(n_cases):
-        kind = t % 5
+        kind = t % 6
+        if kind == 5:
+            out.append(random_c17_indices(rng))
+            continue
         if kind == 4:
             out.append(random_c17_merge_indexed(rng))
             continue
@@ -1101,7 +1132,7 @@ def random_c14(rng, n_cases):
     return out
 
 
-DERIVE = {"C14": derive_c14, "C08": derive_c08, "C09": derive_c09, "C04": derive_c04, "C16": derive_c16}
+DERIVE = {"C14": derive_c14, "C08": derive_c08, "C09": derive_c09, "C04": derive_c04, "C16": derive_c16, "C17": derive_c17}
 RANDOM = {"C14": random_c14, "C06": random_c06, "C16": random_c16, "C08": random_c08, "C09": random_c09, "C04": random_c04, "C03": random_c03, "C17": random_c17, "C19": random_c19}
 
 
